@@ -1,10 +1,10 @@
 SPECIFICATION Spec
 CONSTANTS
-  Contents <- C2
+  Contents <- C1
   Sources <- Both
-  BaseDepth = 2
-  FinalOps = "all"
-  StartCalcs <- NoStartCalc
+  BaseDepth = 1
+  FinalOps = "few"
+  StartCalcs <- BothStarts
   Emit = TRUE
 INVARIANT ContentKept
 INVARIANT ColumnsKept
